@@ -44,7 +44,7 @@ def health(qf, log):
         devs = CC.forensics(qc, n, sp=sp, preset=preset)
         pred, cls = C03.attribute(devs)
         if [x for x in CC.LOG.get("inv_fails", []) if not (single and x[2] == out)]:
-            pred = None
+            pred = "c03_inline_uncompute_stale_control" if CC.LOG.get("inv_class") == "inline-stale-control" else None
         return "dirty", pred, f"{len(o.dirty)} qubits not restored (first deviation class {cls})"
     return "clean", None, ""
 
